@@ -562,7 +562,14 @@ func (in *Interp) indexAddr(fr *frame, x *ssa.IndexAddr) Value {
 		}
 		return PtrV{obj: c.obj, path: np}
 	case BytesV:
-		in.unsupported("address of element of string-backed []byte at %s", in.posStr(x.Pos()))
+		// read access into an immutable byte view: materialise a private copy
+		// (writes through this pointer would not be seen by other views)
+		sl := in.bytesToSlice(c, "byte view length")
+		in.boundsPanic(b.Not(b.And(b.SLe(b.BV(0, 64), idx), b.SLt(idx, b.BV(uint64(sl.len), 64)))), x.Pos(), "index out of range")
+		if idx.IsConst() {
+			return PtrV{obj: sl.arr, path: []PathElem{{idx: int(idx.val)}}}
+		}
+		return PtrV{obj: sl.arr, path: []PathElem{{sym: in.narrow(idx, 0, uint64(sl.len-1)), n: sl.len}}}
 	}
 	in.unsupported("IndexAddr on %T", base)
 	return nil
@@ -842,6 +849,10 @@ func (in *Interp) appendOp(dst, src Value, pos token.Pos) Value {
 		}
 		if d.arr == nil && d.len == 0 {
 			return BytesV{S: st}
+		}
+		if d.len == d.cap {
+			// the result must be a fresh array anyway: keep the appended bytes as a rope
+			return BytesV{S: in.str.Concat(in.sliceToStr(d, pos), st)}
 		}
 		f := in.str.Flat(st)
 		n := int(in.concretize(f.Len, "append string len"))
